@@ -86,6 +86,23 @@ func (m *Manager) Stop() error {
 	m.logger.Info("Stopping session manager")
 	m.cancel()
 	m.wg.Wait()
+
+	// The sessions end with the manager: release what they hold
+	m.mu.RLock()
+	ids := make([]string, 0, len(m.sessions))
+	for id := range m.sessions {
+		ids = append(ids, id)
+	}
+	m.mu.RUnlock()
+	for _, id := range ids {
+		if err := m.TerminateSession(context.Background(), id, TerminateNASReboot); err != nil {
+			m.logger.Warn("Failed to terminate session at shutdown",
+				zap.String("session_id", id),
+				zap.Error(err),
+			)
+		}
+	}
+
 	m.logger.Info("Session manager stopped")
 	return nil
 }
